@@ -622,3 +622,93 @@ Qed.
 Theorem uis_no_panic c dist progs g ls t :
   c < 16777215 -> reach_via ustep bounded_tag (uinit c dist progs) (g, ls) -> upc_of (ls t) <> UDead.
 Proof. intros Hc Hr. exact (uis_no_panic_cfg _ _ _ _ Hc Hr t). Qed.
+
+(* ---------------- a released index is acquirable again ---------------- *)
+(* the successful CAS of release pushes the index on the free list: it is the new head *)
+Theorem uis_release_pushes t g ls c' e i m ov u0 :
+  Inv (g, ls) -> upc_of (ls t) = RelCas i m ov u0 -> uhead g = ov -> step1 ustep t (g, ls) = Some (c', e) ->
+  gfree (fst c') = i :: gfree g /\ hd_head (uhead (fst c')) = i /\ nthN (uown (fst c')) i None = None /\
+  ~ In i (owned_by (snd c' t)).
+Proof.
+  intros HI Epc Eov Hs. pose proof HI as [HG HL]. cbn [fst snd] in *.
+  unfold step1 in Hs. cbn [fst snd] in Hs. unfold ustep in Hs. rewrite Epc in Hs.
+  destruct (HL t) as (HtND & HtOwn & HtPc). rewrite Epc in HtPc. cbn [PcInv] in HtPc. destruct HtPc as (Hs' & Hr & Hn).
+  destruct (rel_borrowed_val m (hd_borrowed ov) (proj1 Hr) (proj2 Hr)) as (b' & Eb & Hb'). rewrite Eb in Hs.
+  destruct (N.eqb_spec (uhead g) ov) as [_|Ene]; [|contradiction]. inversion Hs; subst c' e; clear Hs.
+  cbn [fst snd upd_head gfree uhead uown].
+  assert (Hi : nthN (uown g) i None = Some t).
+  { apply HtOwn. unfold owned_by, inflight. rewrite Epc. apply in_or_app. right. left. reflexivity. }
+  destruct (ginv_owned_facts g i t HG Hi) as (Hlt & Hni & Hb1 & Hbl & Hbb).
+  destruct HG as (Hc & Hw & Hln & Hlo & _).
+  assert (Hb'lt : b' < P24) by (subst ov; unfold P24, LOCK_ACQUIRE in *; destruct Hb' as [(_ & _ & ->)|(_ & ->)]; lia).
+  destruct (hd_from_value i (aba_succ (hd_aba ov)) b') as (F1 & _); [unfold P24; lia|apply aba_succ_lt|assumption|].
+  split; [reflexivity|]. split; [assumption|]. split; [apply nthN_updN_same; lia|].
+  rewrite upd_l_same. unfold owned_by, inflight in *. rewrite Epc in HtND. cbn [set_u upc_of uheld]. rewrite app_nil_r.
+  apply nodup_app_single in HtND. apply HtND.
+Qed.
+
+(* the successful CAS of acquire pops the head of the free list: that is the index handed out *)
+Theorem uis_acquire_pops t g ls c' e ov nx u0 :
+  Inv (g, ls) -> tag_window_ok g (ls t) -> upc_of (ls t) = AcqCas ov nx u0 -> uhead g = ov ->
+  step1 ustep t (g, ls) = Some (c', e) ->
+  exists h, gfree g = h :: gfree (fst c') /\ upc_of (snd c' t) = AcqWDist h /\ nthN (uown (fst c')) h None = Some t.
+Proof.
+  intros HI Hbt Epc Eov Hs. pose proof HI as [HG HL]. cbn [fst snd] in *.
+  unfold step1 in Hs. cbn [fst snd] in Hs. unfold ustep in Hs. rewrite Epc in Hs.
+  destruct (HL t) as (_ & _ & HtPc). rewrite Epc in HtPc. cbn [PcInv] in HtPc. destruct HtPc as (Hs' & (Hh & Hnl) & Hn).
+  destruct (N.eqb_spec (uhead g) ov) as [_|Ene]; [|contradiction]. inversion Hs; subst c' e; clear Hs.
+  cbn [fst snd upd_head gfree uown]. rewrite upd_l_same. cbn [set_u upc_of].
+  subst ov. destruct (ginv_head_free g HG Hh) as (r & Er & _ & _).
+  exists (hd_head (uhead g)). rewrite Er. cbn [tl]. split; [reflexivity|]. split; [reflexivity|].
+  destruct HG as (_ & _ & _ & Hlo & _). apply nthN_updN_same. lia.
+Qed.
+
+(* ---------------- building reach_via witnesses by computation ---------------- *)
+Definition tag_ok_b (g : ugst) (l : ulst) : bool :=
+  match upc_of l with
+  | AcqDist _ u0 | AcqRead _ u0 | AcqCas _ _ u0 | RelDist _ _ _ u0 | RelWrite _ _ _ u0 | RelCas _ _ _ u0 => N.ltb (updates g - u0) 65536
+  | _ => true
+  end.
+Definition quiet_above (nt : nat) (c : cfg ugst ulst) : Prop :=
+  forall t, (nt <= t)%nat -> upc_of (snd c t) = UIdle /\ uprog (snd c t) = [].
+Definition bounded_tag_b (nt : nat) (c : cfg ugst ulst) : bool :=
+  forallb (fun t => tag_ok_b (fst c) (snd c t)) (seq 0 nt).
+
+Lemma bounded_tag_b_ok nt c : quiet_above nt c -> bounded_tag_b nt c = true -> bounded_tag c.
+Proof.
+  intros Hq Hb t. destruct (Nat.lt_ge_cases t nt) as [Hlt|Hge].
+  - unfold bounded_tag_b in Hb. rewrite forallb_forall in Hb. specialize (Hb t).
+    assert (Hin : In t (seq 0 nt)) by (apply in_seq; lia). specialize (Hb Hin).
+    unfold tag_ok_b in Hb. unfold tag_window_ok. destruct (upc_of (snd c t)); auto; apply N.ltb_lt; exact Hb.
+  - destruct (Hq t Hge) as [E _]. unfold tag_window_ok. rewrite E. exact I.
+Qed.
+
+Lemma quiet_step nt t c c' e : quiet_above nt c -> step1 ustep t c = Some (c', e) -> quiet_above nt c'.
+Proof.
+  destruct c as [g ls]. intros Hq Hs. unfold step1 in Hs. cbn [fst snd] in *.
+  destruct (ustep t g (ls t)) as [[[g' l'] e']|] eqn:Est; [|discriminate]. inversion Hs; subst c' e; clear Hs.
+  intros t' Ht'. cbn [snd]. destruct (Nat.eq_dec t' t) as [->|Hne]; [|rewrite upd_l_other by assumption; apply Hq; assumption].
+  exfalso. destruct (Hq t Ht') as [E1 E2]. cbn [snd] in *. unfold ustep in Est. rewrite E1, E2 in Est. discriminate.
+Qed.
+
+Fixpoint run_chk (nt : nat) (s : list nat) (c : cfg ugst ulst) : option (cfg ugst ulst) :=
+  match s with
+  | [] => Some c
+  | t :: s' =>
+    match step1 ustep t c with
+    | None => None
+    | Some (c', _) => if bounded_tag_b nt c' then run_chk nt s' c' else None
+    end
+  end.
+
+Lemma run_chk_reach nt init s c c' :
+  reach_via ustep bounded_tag init c -> quiet_above nt c -> run_chk nt s c = Some c' ->
+  reach_via ustep bounded_tag init c' /\ quiet_above nt c'.
+Proof.
+  revert c; induction s as [|t s IH]; intros c Hr Hq H; cbn [run_chk] in H.
+  - inversion H; subst; auto.
+  - destruct (step1 ustep t c) as [[c1 e]|] eqn:Est; [|discriminate].
+    destruct (bounded_tag_b nt c1) eqn:Eb; [|discriminate].
+    pose proof (quiet_step _ _ _ _ _ Hq Est) as Hq1.
+    apply (IH c1); auto. eapply rv_step; eauto. eapply bounded_tag_b_ok; eauto.
+Qed.
